@@ -37,7 +37,7 @@ namespace DFA
 structure WellFormed (d : DFA) : Prop where
   tr_nonempty : ∀ S c T, (S, c, T) ∈ d.trans → T ≠ []
   df_nonempty : ∀ S T, (S, T) ∈ d.defaults → T ≠ []
-  labels_valid : ∀ S c T, (S, c, T) ∈ d.trans → c ≤ maxCodePoint
+  labels_valid : ∀ S c T, (S, c, T) ∈ d.trans → Scalar c
 
 theorem mem_of_lookupTrans {d : DFA} {X T : SSet} {c : Nat} (h : d.lookupTrans X c = some T) :
     ∃ S, (S, c, T) ∈ d.trans := by
@@ -112,14 +112,28 @@ theorem nextState_isSome_iff {d : DFA} {X : SSet} {c : Nat} :
   cases d.lookupTrans X c <;> simp
 
 theorem nextLabel_some {lab : Option Nat} {l0 : Nat} (h : nextLabel lab = some l0) :
-    l0 = lo lab ∧ l0 ≤ maxCodePoint := by
+    lo lab ≤ l0 ∧ Scalar l0 ∧ ∀ c', lo lab ≤ c' → Scalar c' → l0 ≤ c' := by
   cases lab with
-  | none => simp only [nextLabel, Option.some.injEq] at h; subst h; exact ⟨rfl, Nat.zero_le _⟩
+  | none =>
+    simp only [nextLabel, Option.some.injEq] at h; subst h
+    exact ⟨Nat.le_refl _, ⟨Nat.zero_le _, Or.inl (by omega)⟩, fun _ _ _ => Nat.zero_le _⟩
   | some l =>
     simp only [nextLabel] at h
     split at h
     · cases h
-    · simp only [Option.some.injEq] at h; subst h; exact ⟨rfl, by omega⟩
+    · next hmax =>
+      simp only [maxCodePoint] at hmax
+      split at h
+      · next hs =>
+        simp only [Option.some.injEq] at h; subst h
+        refine ⟨by simp only [lo]; omega, ⟨by simp only [maxCodePoint]; omega, Or.inr (by omega)⟩, ?_⟩
+        intro c' hlo hsc
+        simp only [lo] at hlo
+        obtain ⟨_, h2⟩ := hsc
+        omega
+      · next hs =>
+        simp only [Option.some.injEq] at h; subst h
+        refine ⟨Nat.le_refl _, ⟨by simp only [maxCodePoint]; omega, by omega⟩, fun c' hlo _ => hlo⟩
 
 theorem nextLabel_none {lab : Option Nat} (h : nextLabel lab = none) : maxCodePoint < lo lab := by
   cases lab with
@@ -128,11 +142,11 @@ theorem nextLabel_none {lab : Option Nat} (h : nextLabel lab = none) : maxCodePo
     simp only [nextLabel] at h
     split at h
     · simp only [lo]; omega
-    · cases h
+    · split at h <;> cases h
 
-theorem edgeFrom_some {d : DFA} (hw : WellFormed d) {q : Option SSet} {l0 c : Nat} (hmax : l0 ≤ maxCodePoint)
+theorem edgeFrom_some {d : DFA} (hw : WellFormed d) {q : Option SSet} {l0 c : Nat} (hmax : Scalar l0)
     (h : d.edgeFrom q l0 = some c) :
-    l0 ≤ c ∧ c ≤ maxCodePoint ∧ (d.nextState q c).isSome = true ∧
+    l0 ≤ c ∧ Scalar c ∧ (d.nextState q c).isSome = true ∧
       ∀ c', l0 ≤ c' → (d.nextState q c').isSome = true → c ≤ c' := by
   unfold edgeFrom at h
   cases q with
@@ -183,31 +197,32 @@ theorem edgeFrom_none {d : DFA} {q : Option SSet} {l0 : Nat} (h : d.edgeFrom q l
         rw [this] at hm; cases hm
       · exact hc (by simp [h1])
 
-/-- `find_next_edge` returns the least label at or after `lo label` that has an edge ... -/
+/-- `find_next_edge` returns the least real character at or after `lo label` that has an edge ... -/
 theorem findNextEdge_some {d : DFA} (hw : WellFormed d) {q : Option SSet} {lab : Option Nat} {c : Nat}
     (h : d.findNextEdge q lab = some c) :
-    lo lab ≤ c ∧ c ≤ maxCodePoint ∧ (d.nextState q c).isSome = true ∧
-      ∀ c', lo lab ≤ c' → (d.nextState q c').isSome = true → c ≤ c' := by
+    lo lab ≤ c ∧ Scalar c ∧ (d.nextState q c).isSome = true ∧
+      ∀ c', lo lab ≤ c' → Scalar c' → (d.nextState q c').isSome = true → c ≤ c' := by
   unfold findNextEdge at h
   cases hn : nextLabel lab with
   | none => rw [hn] at h; cases h
   | some l0 =>
     rw [hn] at h
-    obtain ⟨rfl, hmax⟩ := nextLabel_some hn
-    exact edgeFrom_some hw hmax h
+    obtain ⟨hlo, hsc, hmin⟩ := nextLabel_some hn
+    obtain ⟨h1, h2, h3, h4⟩ := edgeFrom_some hw hsc h
+    exact ⟨Nat.le_trans hlo h1, h2, h3, fun c' hc' hs' => h4 c' (hmin c' hc' hs')⟩
 
 /-- ... and `None` only when no real character at or after `lo label` has one. -/
 theorem findNextEdge_none {d : DFA} {q : Option SSet} {lab : Option Nat}
     (h : d.findNextEdge q lab = none) :
-    ∀ c', lo lab ≤ c' → c' ≤ maxCodePoint → d.nextState q c' = none := by
+    ∀ c', lo lab ≤ c' → Scalar c' → d.nextState q c' = none := by
   intro c' hc' hmax
   unfold findNextEdge at h
   cases hn : nextLabel lab with
-  | none => have := nextLabel_none hn; omega
+  | none => have := nextLabel_none hn; have := hmax.1; omega
   | some l0 =>
     rw [hn] at h
-    obtain ⟨rfl, _⟩ := nextLabel_some hn
-    exact edgeFrom_none h c' hc'
+    obtain ⟨_, _, hmin⟩ := nextLabel_some hn
+    exact edgeFrom_none h c' (hmin c' hc' hmax)
 
 /-! ### The wall-following loop -/
 
@@ -219,7 +234,7 @@ structure Env (d : DFA) (G : Option SSet → Prop) : Prop where
   step : ∀ q c T, G q → d.nextState q c = some T → G (some T)
   live : ∀ q, G q → ∃ u, Valid u ∧ d.accept q u = true
 
-theorem valid_cons {c : Nat} {u : List Nat} : Valid (c :: u) ↔ c ≤ maxCodePoint ∧ Valid u := by
+theorem valid_cons {c : Nat} {u : List Nat} : Valid (c :: u) ↔ Scalar c ∧ Valid u := by
   simp [Valid]
 
 theorem valid_append {a b : List Nat} : Valid (a ++ b) ↔ Valid a ∧ Valid b := by
@@ -266,10 +281,10 @@ theorem wall_descend {d : DFA} {G : Option SSet → Prop} (env : Env d G) :
         obtain ⟨T, hT⟩ := Option.isSome_iff_exists.mp hcs
         have hGT : G (some T) := env.step q c T hG hT
         -- every accepted string starts with a character ≥ c
-        have hmin_head : ∀ c' u', d.accept q (c' :: u') = true → c ≤ c' := by
-          intro c' u' ha
+        have hmin_head : ∀ c' u', Scalar c' → d.accept q (c' :: u') = true → c ≤ c' := by
+          intro c' u' hsc' ha
           rw [accept_cons env.wf] at ha
-          apply hcmin c' (Nat.zero_le _)
+          apply hcmin c' (Nat.zero_le _) hsc'
           cases hq : d.nextState q c' with
           | none => rw [hq, accept_none] at ha; cases ha
           | some T' => rfl
@@ -279,11 +294,11 @@ theorem wall_descend {d : DFA} {G : Option SSet → Prop} (env : Env d G) :
           subst h
           refine ⟨[c], rfl, valid_cons.mpr ⟨hcmax, by simp [Valid]⟩, ?_, ?_⟩
           · rw [accept_cons env.wf]; simpa [accept] using hfin
-          · intro u _ hau
+          · intro u hvu hau
             cases u with
             | nil => simp only [accept] at hau; rw [hnf] at hau; cases hau
             | cons c' u' =>
-              have := hmin_head c' u' hau
+              have := hmin_head c' u' (valid_cons.mp hvu).1 hau
               rcases Nat.lt_or_eq_of_le this with hlt | rfl
               · exact cons_le_cons_of_lt _ _ hlt
               · exact cons_le_cons_same (nil_le' _)
@@ -296,7 +311,7 @@ theorem wall_descend {d : DFA} {G : Option SSet → Prop} (env : Env d G) :
             cases u with
             | nil => simp only [accept] at hau; rw [hnf] at hau; cases hau
             | cons c' u' =>
-              have := hmin_head c' u' hau
+              have := hmin_head c' u' (valid_cons.mp hvu).1 hau
               rcases Nat.lt_or_eq_of_le this with hlt | rfl
               · exact cons_le_cons_of_lt _ _ hlt
               · rw [accept_cons env.wf, hT] at hau
@@ -360,10 +375,10 @@ theorem wall_stack {d : DFA} {G : Option SSet → Prop} (env : Env d G) :
         obtain ⟨hclo, hcmax, hcs, hcmin⟩ := findNextEdge_some env.wf he
         obtain ⟨T, hT⟩ := Option.isSome_iff_exists.mp hcs
         have hGT : G (some T) := env.step q c T hGq hT
-        have hhead : ∀ c' u', lo lab ≤ c' → d.accept q (c' :: u') = true → c ≤ c' := by
-          intro c' u' hlo' ha
+        have hhead : ∀ c' u', lo lab ≤ c' → Scalar c' → d.accept q (c' :: u') = true → c ≤ c' := by
+          intro c' u' hlo' hsc' ha
           rw [accept_cons env.wf] at ha
-          apply hcmin c' hlo'
+          apply hcmin c' hlo' hsc'
           cases hq : d.nextState q c' with
           | none => rw [hq, accept_none] at ha; cases ha
           | some T' => rfl
@@ -375,10 +390,10 @@ theorem wall_stack {d : DFA} {G : Option SSet → Prop} (env : Env d G) :
           · refine ⟨c, [], rfl, hclo, valid_cons.mpr ⟨hcmax, by simp [Valid]⟩, ?_⟩
             simp only
             rw [accept_cons env.wf]; simpa [accept] using hfin
-          · rintro t ⟨c', u', rfl, hlo', _, ha'⟩
+          · rintro t ⟨c', u', rfl, hlo', hv', ha'⟩
             simp only at hlo' ha' ⊢
             apply append_le_append_left
-            have := hhead c' u' hlo' ha'
+            have := hhead c' u' hlo' (valid_cons.mp hv').1 ha'
             rcases Nat.lt_or_eq_of_le this with hlt | rfl
             · exact cons_le_cons_of_lt _ _ hlt
             · exact cons_le_cons_same (nil_le' _)
@@ -394,7 +409,7 @@ theorem wall_stack {d : DFA} {G : Option SSet → Prop} (env : Env d G) :
           · rintro t ⟨c', u', rfl, hlo', hv', ha'⟩
             simp only at hlo' ha' ⊢
             apply append_le_append_left
-            have := hhead c' u' hlo' ha'
+            have := hhead c' u' hlo' (valid_cons.mp hv').1 ha'
             rcases Nat.lt_or_eq_of_le this with hlt | rfl
             · exact cons_le_cons_of_lt _ _ hlt
             · rw [accept_cons env.wf, hT] at ha'
@@ -531,7 +546,7 @@ theorem nextValidString_ok {d : DFA} {G : Option SSet → Prop} (env : Env d G)
     (h : d.nextValidString chain s = .ok r) :
     (r = none ∧ ∀ t, Valid t → s ≤ t → d.accept (some d.initial) t = false) ∨
     (∃ m, r = some m ∧ d.accept (some d.initial) m = true ∧ s ≤ m ∧
-      ∀ t, Valid t → s ≤ t → d.accept (some d.initial) t = true → m ≤ t) := by
+      (∀ t, Valid t → s ≤ t → d.accept (some d.initial) t = true → m ≤ t) ∧ Valid m) := by
   obtain ⟨new, hst, hGn, hcand, hpw, hfin⟩ := follow_spec env s [] (some d.initial) [] hG0 hv
   rw [List.append_nil] at hst
   unfold nextValidString at h
@@ -540,7 +555,7 @@ theorem nextValidString_ok {d : DFA} {G : Option SSet → Prop} (env : Env d G)
   · rw [if_pos hf] at h
     simp only [Except.ok.injEq] at h
     right
-    exact ⟨s, h.symm, by rw [← hfin]; exact hf, List.le_refl _, fun t _ hst' _ => hst'⟩
+    exact ⟨s, h.symm, by rw [← hfin]; exact hf, List.le_refl _, fun t _ hst' _ => hst', hv⟩
   · rw [if_neg hf, hst] at h
     have hns : d.accept (some d.initial) s = false := by
       rw [← hfin]; simpa using hf
@@ -567,7 +582,7 @@ theorem nextValidString_ok {d : DFA} {G : Option SSet → Prop} (env : Env d G)
       obtain ⟨u, hmu, hvu, hltu, hau⟩ := (hcand m).mp ⟨e, hem, hc⟩
       rw [List.nil_append] at hmu
       subst hmu
-      refine ⟨m, hr, hau, List.le_of_lt hltu, ?_⟩
+      refine ⟨m, hr, hau, List.le_of_lt hltu, ?_, hvu⟩
       intro t hvt hle hat
       obtain ⟨e', he', hc'⟩ := hiscand t hvt hle hat
       rw [hsplit] at he' hpw
